@@ -5,8 +5,10 @@ read_batch on every well-formed magic-2 batch (symbolic header fields, any numbe
 returns the header fields as encoded and the records its record reader yields, consumes exactly
 the batch, and write_batch of the result reproduces the input bytes (lemma over the two
 contracts); a wrong magic byte and a checksum mismatch raise ValueError.  read_record computes
-through floats: its contract is ASSUMED in the batch-level proof and checked by the bounded run
-(which carries the known finding: record timestamps lose their millisecond part).  Bit flips and
+through floats: its real body is verified under the standard rounding model (kvc/fpmodel.py) and a
+model of datetime.fromtimestamp; every clause of its contract is discharged except the timestamp
+one, which is refuted (counterexample replayed on the real code) - the known finding: record
+timestamps lose their millisecond part.  Bit flips and
 truncations are detected through the checksum: validated natively (bounded), since "CRC differs
 on different data" is an axiom about CRC-32C, not a theorem."""
 from __future__ import annotations
@@ -18,7 +20,7 @@ import z3
 
 from checks import common
 
-UNITS = ("nb_reader", "read_header", "read_batch/well-formed", "read_batch/wrong-magic", "read_batch/checksum-mismatch")
+UNITS = ("nb_reader", "read_header", "read_record", "read_batch/well-formed", "read_batch/wrong-magic", "read_batch/checksum-mismatch")
 
 
 def _inline(fn):
@@ -56,6 +58,48 @@ def run_unit(name):
             else:
                 path_obligation(res, ctx, f"{res.unit}/value", tobool(sym_eq(o.value, h, ctx)), got=repr(o.value)[:200])
                 path_obligation(res, ctx, f"{res.unit}/exact-consumption", tobool(equalise(ctx, src.rest(), [Raw(tail)])))
+            collect(res, ctx)
+        explore_unit(res, run)
+        return [common.summarise(res, [common.function_record(fn)])]
+    if name == "read_record":
+        # the real body of read_record (float division, datetime.fromtimestamp, .replace) on Rec(r) relative to the bases:
+        # this is the contract the batch-level proof uses at its call site (contracts.records.ReadRecordContract)
+        fn = RR.read_record
+        res = Result("C18/records.readers/read_record/well-formed")
+
+        def run(ctx):
+            bts = SInt(ctx.int_const("base_timestamp", -(2 ** 63), 2 ** 63 - 1))
+            boff = SInt(ctx.int_const("base_offset", -(2 ** 63), 2 ** 63 - 1))
+            r = CR.generic_record(ctx, "record")
+            rc = CR.RecCtx(r, bts, boff)
+            ctx.assume(CR.rec_requires(ctx, rc))
+            want_us = r.fields["timestamp"].t
+            ctx.assume(want_us % 1000 == 0)          # the wire carries whole milliseconds
+            tail = ctx.bytes_const("tail")
+            src = Source(ctx, [Enc(("rec",), rc), Raw(tail)])
+            res.replayer = record_replayer(fn, r, bts, boff)
+            it = make_interp(ctx, reg, exclude=fn, models=reg.records_models)
+            it.symbolic_records = True
+            o = run_body(it, fn, [src, bts, boff])
+            if o.kind != "return" or not isinstance(o.value, SRec):
+                path_obligation(res, ctx, f"{res.unit}/returns-a-record", z3.BoolVal(False), expected="a Record", got=repr(o)[:300])
+                collect(res, ctx)
+                return
+            for k, v in r.fields.items():
+                got = o.value.fields.get(k)
+                path_obligation(res, ctx, f"{res.unit}/field/{k}", tobool(sym_eq(got, v, ctx)) if got is not None else z3.BoolVal(False),
+                                expected=repr(v)[:120], got=repr(got)[:120])
+            got = o.value.fields.get("timestamp")
+            # implied by field/timestamp, kept apart from it because that one carries the known finding: the whole-second
+            # part of the instant is as encoded, and a timestamp on a whole second is returned exactly
+            gt = getattr(got, "t", None)
+            if gt is None or getattr(got, "kind", None) != "datetime" or getattr(got, "aux", None) is not None:
+                secs = z3.BoolVal(False)
+            else:
+                secs = z3.And(gt / 10 ** 6 == want_us / 10 ** 6, z3.Implies(want_us % 10 ** 6 == 0, gt == want_us), gt % 1000 == 0)
+            path_obligation(res, ctx, f"{res.unit}/field/timestamp/whole-seconds-part", secs,
+                            expected="same whole second as encoded; exact when the encoded instant is a whole second", got=repr(got)[:120])
+            path_obligation(res, ctx, f"{res.unit}/exact-consumption", tobool(equalise(ctx, src.rest(), [Raw(tail)])))
             collect(res, ctx)
         explore_unit(res, run)
         return [common.summarise(res, [common.function_record(fn)])]
@@ -132,6 +176,34 @@ def run_unit(name):
     return [common.summarise(res, [common.function_record(fn)])]
 
 
+def record_replayer(fn, r, bts, boff):
+    """concretise the record and the bases, encode with the reference encoder, run the real read_record"""
+    def replay(ob):
+        import dataclasses
+        import io
+        from checks.l1_serial import native_outcome, small_model
+        from spec import domains
+        from spec import records_spec as RS
+        conc = domains.Concretiser(small_model(ob))
+        rec = conc.value(r)
+        b_ts, b_off = conc.int_(bts.t), conc.int_(boff.t)
+        try:
+            data = RS.encode_record(rec, b_ts, b_off)
+        except Exception as ex:       # noqa: BLE001
+            return {"confirmed": None, "note": f"reference encoder not applicable to the concretised record: {ex!r}"}
+        buf = io.BytesIO(data + b"\x33")
+        k, got = native_outcome(lambda: fn(buf, b_ts, b_off))
+        ok = k == "return" and got == rec and buf.tell() == len(data)
+        # the known finding in its exact shape: everything as encoded except that the timestamp lost its milliseconds
+        d6 = (k == "return" and buf.tell() == len(data) and type(got) is type(rec) and got != rec
+              and rec.timestamp.microsecond != 0 and got.timestamp == rec.timestamp.replace(microsecond=0)
+              and dataclasses.replace(got, timestamp=rec.timestamp) == rec)
+        return {"confirmed": not ok, "input_bytes": data.hex()[:400], "base_timestamp": b_ts, "base_offset": b_off,
+                "expected": repr(rec)[:300], "witness_class": "record timestamp with non-zero milliseconds" if d6 else None,
+                "observed": {"outcome": k, "value": (repr(got)[:300] if k == "return" else got.__name__), "position": buf.tell()}}
+    return replay
+
+
 def batch_replayer(fn, mode, f, recs, magic, bad_crc):
     """concretise the symbolic batch, encode it with the reference encoder and run the real reader"""
     def replay(ob):
@@ -165,21 +237,24 @@ def batch_replayer(fn, mode, f, recs, magic, bad_crc):
 
 def main(tier):
     rep = common.Report("C18", tier, "contract-based deductive verification of kio.records.readers (real bodies; batch loop by an "
-                        "inductive generic-iteration rule; CRC uninterpreted) + lemma over the reader and writer contracts; "
-                        "read_record (float) and the corruption/truncation clauses: bounded native run (stand-in)")
+                        "inductive generic-iteration rule; read_record's float path under the standard rounding model; CRC uninterpreted) "
+                        "+ lemma over the reader and writer contracts; the corruption/truncation clauses: bounded native run (stand-in)")
     rep.add_units(common.run_units("checks.c18", list(UNITS)))
     from checks import bounded_records as BR
     n, fails = BR.check_reader(tier)
     rep.add_bounded("bounded/records-reader-on-reference-batches-and-broker-fixtures",
                     f"{n} batches (reference-encoded grid + the four real-broker fixtures): fields as encoded, read-then-write "
-                    "reproduces the bytes; read_record computes through float (outside the subset)", n, fails)
+                    "reproduces the bytes (validation of the float/datetime model used for read_record)", n, fails)
     n2, fails2 = BR.check_corruption(tier)
     rep.add_bounded("bounded/records-corruption-and-truncation",
                     f"{n2} damaged inputs: every single-bit flip from the CRC field to the end, 4 wrong magic bytes and every "
                     "truncation point of the fixtures and of reference batches", n2, fails2)
     rep.assumptions += [
-        "read_record's contract is ASSUMED in the symbolic batch-level proof (its body uses float arithmetic); the bounded run "
-        "checks it and reports the known finding (millisecond part of record timestamps dropped)",
+        "read_record: the timestamp clause of its contract does not hold (known finding: millisecond part dropped), so the "
+        "batch-level proof's record timestamps are conditional on it; the other clauses are discharged from the real body",
+        "datetime.fromtimestamp(x, UTC) returns the instant N us with |N - x*10^6| <= 1/2 + 2^-33 (CPython rounds half even "
+        "after one rounded multiplication of the fractional part); int/const is exact when the quotient is an integer <= 2^53; "
+        "record timestamps within 0 .. 9999-12-31T23:59:59.999Z in whole milliseconds",
         "CRC axiom (not a theorem): damaged or truncated data does not keep its CRC-32C; validated natively on the fixtures",
         "well-formed batch: magic 2, batch_length = |post| + 9 < 2^31, crc = CRC-32C(post), record timestamps <= max_timestamp",
     ]
